@@ -28,15 +28,25 @@ DEFAULT_EXCLUDED_PATHS = [
 ]
 
 
-def file_line_patterns(file_path: str | Path, patterns: Sequence[str]):
+def file_line_patterns(
+    file_path: str | Path,
+    patterns: Sequence[str],
+    base_dir: Optional[str | Path] = None,
+):
     """
     Find the lines included or excluded for a given file_path among the patterns
+
+    When `base_dir` is given, a pattern may also match the path relative to it,
+    which is how file-level patterns are written.
     """
+    names = [str(file_path)]
+    if base_dir is not None and Path(file_path).is_relative_to(base_dir):
+        names.append(str(Path(file_path).relative_to(base_dir)))
     return [
         int(result[1])
         for pat in patterns
         if len(result := pat.split(":")) == 2
-        and fnmatch.fnmatch(str(file_path), result[0])
+        and any(fnmatch.fnmatch(name, result[0]) for name in names)
     ]
 
 
